@@ -42,8 +42,15 @@ func addr(pk crypto.PrivateKeyI) []byte { return pk.PublicKey().Address().Bytes(
 // Addr is the address of a key.
 func Addr(pk crypto.PrivateKeyI) []byte { return addr(pk) }
 
+// GhostBLSPublicKey is a deterministic BLS public key that belongs to nobody in the genesis.
+func (n *Network) GhostBLSPublicKey(i int) []byte {
+	return detBLS(n.Seed, "ghost", i).PublicKey().Bytes()
+}
+
 // FreshAddr is a deterministic address nobody holds the key of (a "fresh" recipient).
-func (n *Network) FreshAddr(i int) []byte { return detKeyBytes(n.Seed, "fresh", i)[:crypto.AddressSize] }
+func (n *Network) FreshAddr(i int) []byte {
+	return detKeyBytes(n.Seed, "fresh", i)[:crypto.AddressSize]
+}
 
 func (n *Network) SendTx(from crypto.PrivateKeyI, to []byte, amount, fee, createdHeight uint64, memo string) []byte {
 	return n.Tx(from, &fsm.MessageSend{FromAddress: addr(from), ToAddress: to, Amount: amount}, fee, createdHeight, memo)
